@@ -56,6 +56,11 @@ def r1_numbering(ctx, rule="R1"):
             return
     # ---- iteration shape: which variable is the line, what is its 0-based index ------------------------
     it, idx, line = loop.iter, None, None      # idx: affine map of the 0-based index
+    if isinstance(it, ast.Name):
+        # the iterable held in a local with one definition
+        ds = [a for a in C.assigns_to(f.node, it.id) if isinstance(a, ast.Assign)]
+        if len(ds) == 1:
+            it = ds[0].value
     if C.is_call_to(it, "enumerate") and isinstance(loop.target, ast.Tuple) and len(loop.target.elts) == 2:
         st = C.arg_of(it, 1, "start")
         i, line = U(loop.target.elts[0]), U(loop.target.elts[1])
@@ -67,8 +72,7 @@ def r1_numbering(ctx, rule="R1"):
     elif isinstance(loop.target, ast.Name):
         line, seq = loop.target.id, it
     else:
-        ctx.bad(rule, "line loop", f.where(loop), "lines are not visited with `for line in ...` / `for i, line in enumerate(...)`: %s" % U(it)[:80],
-                f.qname, "line loop")
+        ctx.unknown(rule, "line loop", f.where(loop), "lines are not visited with `for line in ...` / `for i, line in enumerate(...)`: %s" % U(it)[:80])
         return
     # ---- the sequence is content.split('\n'), nothing removed or filtered before numbering -------------
     seq_expr = seq
